@@ -22,7 +22,7 @@ import sys
 import time
 import traceback
 
-from . import runner  # noqa: F401  (imports the repository once, before any fork)
+from . import cover, runner  # noqa: F401  (imports the repository once, before any fork)
 
 HERE = os.path.dirname(os.path.dirname(os.path.abspath(__file__)))
 NWORKERS = int(os.environ.get("VERIF_WORKERS", "16"))
@@ -113,6 +113,7 @@ def _worker(prop, w, n, cases, evalfn, outpath, budget_s):
                 rec["sample"] = _jsonable(res.get("sample") or case)
             out.write(json.dumps(rec) + "\n")
             out.flush()
+    cover.flush()
     os._exit(0)
 
 
